@@ -147,6 +147,8 @@ type Sim struct {
 	SimTime      time.Duration
 	pctChange    [4]int
 	salt         uint32
+	events       []Event
+	nevents      int
 }
 
 var active *Sim
@@ -309,7 +311,7 @@ func Run(t *testing.T, cfg Config, root func()) *Sim {
 	if cfg.Sched == nil {
 		cfg.Sched = ReplayTape(nil)
 	}
-	s := &Sim{cfg: cfg, last: -1}
+	s := &Sim{cfg: cfg, last: -1, events: make([]Event, maxEvents)}
 	for i := range s.pctChange {
 		s.pctChange[i] = -1
 	}
